@@ -623,16 +623,21 @@ pub fn main(args: &[String], kind: &str) -> i32 {
 		let c16 = kind == "c16";
 		let stage_steps: Vec<usize> = case.steps.iter().enumerate().filter(|(_, s)| !matches!(s, Step::Commit(_))).map(|(i, _)| i).collect();
 		let fail_at: Option<(usize, usize)> = if c16 && !stage_steps.is_empty() {
+			// the first operations of a stage (opening / reading the head of a log, the first table write)
+			// are where most distinct failure sites lie
 			let b = match rng.below(4) {
-				0 => rng.range(0, 3),
-				1 => rng.range(0, 8),
+				0 | 1 => rng.range(0, 3),
+				2 => rng.range(0, 8),
 				_ => rng.range(0, 40),
 			} as usize;
-			Some((*rng.pick(&stage_steps), b))
+			// half of the time at an enact step (if there is one): the stage with the most file operations
+			let enacts: Vec<usize> = stage_steps.iter().cloned().filter(|i| matches!(case.steps[*i], Step::EnactAll | Step::EnactOne)).collect();
+			let at = if !enacts.is_empty() && rng.chance(1, 2) { *rng.pick(&enacts) } else { *rng.pick(&stage_steps) };
+			Some((at, b))
 		} else {
 			None
 		};
-		let lift_before_drop = c16 && rng.chance(1, 3);
+		let lift_before_drop = c16 && rng.chance(1, 2);
 		let failure: Mutex<Option<(usize, usize, String)>> = Mutex::new(None); // (step, commits synced before it, error)
 		let c16_verdict: Mutex<Option<String>> = Mutex::new(None);
 		let synced_at_drop: Mutex<Option<usize>> = Mutex::new(None);
